@@ -374,6 +374,21 @@ func runC18(c *Ctx) {
 				if !ok {
 					return true
 				}
+				// writeFieldsLE(w, a, b, c): a helper of the package that hands each element of its variadic
+				// parameter to binary.Write in order is one binary.Write per argument
+				if id, isIdent := call.Fun.(*ast.Ident); isIdent {
+					if nfixed, ok := variadicBinaryWriter(ap, id); ok && call.Ellipsis == token.NoPos {
+						for _, a := range call.Args[min(nfixed, len(call.Args)):] {
+							tv := ap.TypesInfo.Types[a]
+							if b, ok := tv.Type.Underlying().(*types.Basic); ok {
+								total += int64(basicBits(b) / 8)
+							} else {
+								okAll = false
+							}
+						}
+						return false
+					}
+				}
 				sel, ok := call.Fun.(*ast.SelectorExpr)
 				if !ok {
 					return true
@@ -1069,3 +1084,65 @@ func constSliceWidth(info *types.Info, e ast.Expr) int64 {
 }
 
 var _ = load.RootModule
+
+// variadicBinaryWriter: id names a function of package p whose last parameter is variadic and whose body ranges over
+// that parameter handing each element as the value of encoding/binary.Write, and calls binary.Write nowhere else.
+// It returns the number of fixed parameters.
+func variadicBinaryWriter(p *packages.Package, id *ast.Ident) (int, bool) {
+	fn, ok := p.TypesInfo.Uses[id].(*types.Func)
+	if !ok || fn.Pkg() != p.Types {
+		return 0, false
+	}
+	sig := fn.Type().(*types.Signature)
+	if !sig.Variadic() || sig.Recv() != nil {
+		return 0, false
+	}
+	var decl *ast.FuncDecl
+	for _, file := range p.Syntax {
+		for _, d := range file.Decls {
+			if fd, ok := d.(*ast.FuncDecl); ok && p.TypesInfo.Defs[fd.Name] == types.Object(fn) {
+				decl = fd
+			}
+		}
+	}
+	if decl == nil || decl.Body == nil {
+		return 0, false
+	}
+	vparam := sig.Params().At(sig.Params().Len() - 1)
+	isBinaryWrite := func(call *ast.CallExpr) bool {
+		sel, ok := call.Fun.(*ast.SelectorExpr)
+		if !ok || sel.Sel.Name != "Write" || len(call.Args) != 3 {
+			return false
+		}
+		obj, ok := p.TypesInfo.Uses[sel.Sel].(*types.Func)
+		return ok && obj.Pkg() != nil && obj.Pkg().Path() == "encoding/binary"
+	}
+	inLoop, total := 0, 0
+	ast.Inspect(decl.Body, func(n ast.Node) bool {
+		if call, ok := n.(*ast.CallExpr); ok && isBinaryWrite(call) {
+			total++
+		}
+		rs, ok := n.(*ast.RangeStmt)
+		if !ok {
+			return true
+		}
+		x, ok := ast.Unparen(rs.X).(*ast.Ident)
+		if !ok || p.TypesInfo.Uses[x] != types.Object(vparam) || rs.Value == nil {
+			return true
+		}
+		val, ok := rs.Value.(*ast.Ident)
+		if !ok {
+			return true
+		}
+		ast.Inspect(rs.Body, func(m ast.Node) bool {
+			if call, ok := m.(*ast.CallExpr); ok && isBinaryWrite(call) {
+				if a, ok := ast.Unparen(call.Args[2]).(*ast.Ident); ok && p.TypesInfo.Uses[a] == p.TypesInfo.Defs[val] {
+					inLoop++
+				}
+			}
+			return true
+		})
+		return true
+	})
+	return sig.Params().Len() - 1, inLoop == 1 && total == 1
+}
